@@ -420,6 +420,8 @@ fn run_lock(id: &'static str, args: &Args) -> Report {
     for (i, n) in ilv::FEATURE_NAMES.iter().enumerate() {
         r.bound(&format!("reached: {n}"), feats & (1 << i) != 0);
     }
+    // every schedule is an execution of the real (verbatim) lock code, not of a model of it
+    r.traces_validated = r.evaluations;
     r.bound("classes", json!(class_notes));
     r.bound("schedules", sched_total);
     r.rule = format!(
